@@ -144,8 +144,10 @@ func runResume(rec *recorder, sc *Scenario) error {
 		}
 	}
 	maxAge := time.Duration(sc.MaxAgeS) * time.Second
-	if maxAge == 0 {
+	if sc.MaxAgeS == 0 {
 		maxAge = 30 * time.Minute
+	} else if sc.MaxAgeS < 0 {
+		maxAge = 0 // WithMaxLastUpdate(0): every Running plan is older than the maximum
 	}
 	for pl, pr := range runs {
 		pre := pres[pl]
